@@ -217,7 +217,21 @@ impl UnrepairedDatabaseHeader {
     // (repairing if necessary). Returns the usable DatabaseHeader along with a `clean` flag that is
     // true only when nothing had to be reconciled: the primary was kept and the stored layout
     // already matched `file_len`.
-    pub(super) fn finalize(mut self, file_len: u64) -> Result<(DatabaseHeader, bool)> {
+    pub(super) fn finalize(self, file_len: u64) -> Result<(DatabaseHeader, bool)> {
+        self.finalize_expecting(file_len, None)
+    }
+
+    // As finalize(), for a database this process already has open. `expected_len` is the length
+    // this process last gave the file. The stored region counts are rewritten only by a commit, so
+    // a transaction that resized the file and then did not commit leaves them stale. A file of
+    // exactly the expected length was not modified behind our back, so stale counts alone are not
+    // reported as damage; they are still corrected in the returned header.
+    pub(super) fn finalize_expecting(
+        mut self,
+        file_len: u64,
+        expected_len: Option<u64>,
+    ) -> Result<(DatabaseHeader, bool)> {
+        let length_expected = expected_len == Some(file_len);
         if self.inner.recovery_required {
             // The region counts are unchecksummed and rewritten on every resize, so a crash
             // mid-resize can tear them. Recovery is required, so rebuild the layout from the file
@@ -235,7 +249,10 @@ impl UnrepairedDatabaseHeader {
                 && trailing_pages == self.inner.trailing_partial_region_pages;
             self.inner.set_layout(recalculated);
             let kept_primary = self.select_primary_slot()?;
-            return Ok((self.inner, kept_primary && layout_matched));
+            return Ok((
+                self.inner,
+                kept_primary && (layout_matched || length_expected),
+            ));
         }
 
         // Recovery isn't required, so the stored layout was written by a clean shutdown and is
@@ -254,7 +271,10 @@ impl UnrepairedDatabaseHeader {
             self.inner.set_layout(recalculated);
         }
         let kept_primary = self.select_primary_slot()?;
-        Ok((self.inner, kept_primary && !layout_stale))
+        Ok((
+            self.inner,
+            kept_primary && (!layout_stale || length_expected),
+        ))
     }
 
     // Rebuild the database layout from the actual file length, trusting only the immutable region
